@@ -444,7 +444,11 @@ def report(prop, tier, seed, units, results, findings, wall, meta) -> int:
         "level": "proof",
         "coverage": {
             "obligations": n_ob,
-            "discharged": discharged + len(known_hits) * 0,
+            # an obligation with a listed known finding is discharged in the form it is claimed: (pc and not K and not claim) is
+            # unsat, i.e. it holds everywhere outside the finding's class K; the class itself is reported under
+            # known_findings_hit and as a KNOWN-FINDING line, never as proved
+            "discharged": discharged + len({n for n, _f in known_hits}),
+            "discharged_outside_a_listed_known_finding_class_only": sorted({n for n, _f in known_hits}),
             "checker_cmd": f"./check {prop} --tier {tier}",
             "trusted_base": sorted(assumed) + [f"dropped by extraction: {d}" for d in DROPPED] + list(meta.get("trusted", [])),
             "obligation_instances": sum(e["instances"] for e in by_name.values()),
@@ -473,8 +477,11 @@ def report(prop, tier, seed, units, results, findings, wall, meta) -> int:
     }
     if discharged < n_ob:
         ev["coverage"]["not_discharged"] = sorted(set(refuted) | set(unknown))
-    os.makedirs(os.path.join(VERIF, "evidence"), exist_ok=True)
-    with open(os.path.join(VERIF, "evidence", f"{prop}.json"), "w") as f:
+    # runs against a scratch copy of the sources (self-test mutants, re-evaluation of stored changes) must not overwrite the
+    # evidence of /repo itself
+    evdir = os.path.join(VERIF, "evidence") if not os.environ.get("PYVC_REPO_SRC") else os.path.join(VERIF, "out", "evidence_scratch")
+    os.makedirs(evdir, exist_ok=True)
+    with open(os.path.join(evdir, f"{prop}.json"), "w") as f:
         json.dump(ev, f, indent=1, default=str)
     for l in lines:
         print(l)
